@@ -4,6 +4,7 @@ import (
 	"fmt"
 	"go/token"
 	"go/types"
+	"math/big"
 	"strings"
 
 	"golang.org/x/tools/go/ssa"
@@ -957,10 +958,24 @@ func (e *enc) convert(b *ssa.BasicBlock, i *ssa.Convert) {
 	case sx == "Str" && sr == "Str":
 		e.define(i, x)
 	case sx == "F64" && sr == "F64":
-		if bx != nil && br != nil && bx.Kind() == br.Kind() {
+		if bx != nil && br != nil && (bx.Kind() == br.Kind() || bx.Kind() == types.Float32 || bx.Kind() == types.UntypedFloat) {
+			// same kind, or widening float32 -> float64 (float32 values are kept as the float64 of the same value)
 			e.define(i, x)
+		} else if br != nil && br.Kind() == types.Float32 {
+			// narrowing: round to nearest even
+			n := e.havoc(i)
+			e.assume(fmt.Sprintf("(= (toFP %s) ((_ to_fp 11 53) RNE ((_ to_fp 8 24) RNE (toFP %s))))", n, x))
 		} else {
 			e.havoc(i)
+		}
+	case sx == "ISort" && sr == "F64" && br != nil && br.Kind() == types.Float32:
+		n := e.havoc(i)
+		if e.bv {
+			conv := "to_fp"
+			if isUnsigned(i.X.Type()) {
+				conv = "to_fp_unsigned"
+			}
+			e.assume(fmt.Sprintf("(= (toFP %s) ((_ to_fp 11 53) RNE ((_ %s 8 24) RNE %s)))", n, conv, x))
 		}
 	case sx == "ISort" && sr == "F64":
 		n := e.havoc(i)
@@ -975,9 +990,22 @@ func (e *enc) convert(b *ssa.BasicBlock, i *ssa.Convert) {
 		}
 	case sx == "F64" && sr == "ISort":
 		n := e.havoc(i)
-		if e.bv && br != nil && intSize(br) == 64 && !isUnsigned(br) {
-			// defined when the truncated value is representable; otherwise implementation-defined (left free)
-			e.assume(fmt.Sprintf("(=> (and (fp.leq ((_ to_fp 11 53) RNE (- 9223372036854775808.0)) (toFP %s)) (fp.lt (toFP %s) ((_ to_fp 11 53) RNE 9223372036854775808.0))) (= %s ((_ fp.to_sbv 64) RTZ (toFP %s))))", x, x, n, x))
+		if e.bv && br != nil {
+			// defined when the truncated value is representable in the target type; otherwise
+			// implementation-defined (left free)
+			k := intSize(br)
+			pow := func(b int) string {
+				return fmt.Sprintf("((_ to_fp 11 53) RNE %s.0)", new(big.Int).Lsh(big.NewInt(1), uint(b)).String())
+			}
+			switch {
+			case !isUnsigned(br) && k == 64:
+				e.assume(fmt.Sprintf("(=> (and (fp.leq (fp.neg %s) (toFP %s)) (fp.lt (toFP %s) %s)) (= %s ((_ fp.to_sbv 64) RTZ (toFP %s))))", pow(63), x, x, pow(63), n, x))
+			case !isUnsigned(br):
+				lo := fmt.Sprintf("(fp.neg ((_ to_fp 11 53) RNE %s.0))", new(big.Int).Add(new(big.Int).Lsh(big.NewInt(1), uint(k-1)), big.NewInt(1)).String())
+				e.assume(fmt.Sprintf("(=> (and (fp.lt %s (toFP %s)) (fp.lt (toFP %s) %s)) (= %s ((_ fp.to_sbv 64) RTZ (toFP %s))))", lo, x, x, pow(k-1), n, x))
+			default:
+				e.assume(fmt.Sprintf("(=> (and (fp.lt (fp.neg ((_ to_fp 11 53) RNE 1.0)) (toFP %s)) (fp.lt (toFP %s) %s)) (= %s ((_ fp.to_ubv 64) RTZ (toFP %s))))", x, x, pow(k), n, x))
+			}
 		}
 	case sr == "Slice" && sx == "Str":
 		// []byte(s)
